@@ -1025,7 +1025,7 @@ Proof.
   pose proof (ranked_valid_order failed values HL) as Hr.
   assert (Hlen : length idx' = length (ranked failed values))
     by (rewrite (valid_order_length _ _ _ Hv), (valid_order_length _ _ _ Hr); reflexivity).
-  split; [apply valid_orders_same_values; assumption|].
+  split; [apply (valid_orders_same_values values failed idx' (ranked failed values) k Hv Hr Hk)|].
   rewrite Hst by exact Hk. rewrite cvar_weights_spec by assumption.
   assert (Hk' : (k < length (ranked failed values))%nat) by lia.
   assert (Hin : In (nth k (ranked failed values) 0%nat) (ranked failed values)) by (apply nth_In; exact Hk').
